@@ -14,6 +14,7 @@ THEOREMS = [
     "Rva.operate_rv32", "Rva.mulh_product_exact", "Rva.mulhsu_product_exact",
     "Rva.operate_add", "Rva.operate_sll", "Rva.operate_sra", "Rva.operate_mulhu",
     "Rva.operate_div", "Rva.operate_rem",
+    "Rva.pseudoRR_meaning", "Rva.pseudoBZ_meaning", "Rva.pseudoB2_meaning",
 ]
 
 OPS = "add and or sll slt sltu sra srl sub xor mul mulh mulhsu mulhu div divu rem remu".split()
@@ -255,7 +256,7 @@ def check_decode(line, kind, inst, fields):
 
 def run(res, tier, seed):
     rng = random.Random(seed)
-    proof_ok = proof_stage(res, "Rva.Proofs.C08", THEOREMS, extra_modules=["Rva.Proofs.Tables"])
+    proof_ok = proof_stage(res, "Rva.Proofs.C08b", THEOREMS, extra_modules=["Rva.Proofs.C08", "Rva.Proofs.Tables"])
     extra_first = None
     # --- decoding and pseudo-expansion against the manual (all mnemonics x forms)
     dcases = decode_cases(rng)
